@@ -48,6 +48,8 @@ Fixpoint nca (tr : list event) : Prop :=
   end.
 Definition NCA (s : st) : Prop := nca (s_trace s).
 
+Lemma faulted_upd e s : faulted (upd_trace e s) <-> is_fault e = true \/ faulted s.
+Proof. unfold faulted. cbn [upd_trace s_trace existsb]. apply orb_true_iff. Qed.
 Lemma nf_Inv s : nf s -> Inv s.
 Proof. intros H F. contradiction. Qed.
 
@@ -169,19 +171,6 @@ Proof.
   - injection E as <- <-.
     split; [|intros _ _; split; [|reflexivity]]; exists [ERead 0]; split; reflexivity.
   - injection E as <- <-. split; [|discriminate]. exists [EReadErr k]. split; reflexivity.
-Qed.
-
-(* Low only looks at the trace and the parked error *)
-Lemma low_frame {A} (m : M A) (g h : st -> st) :
-  (forall s, s_trace (g s) = s_trace s) -> (forall s, s_park (g s) = s_park s) ->
-  (forall s, s_trace (h s) = s_trace s) -> (forall s, s_park (h s) = s_park s) ->
-  Low m -> Low (fun s => let (r, s') := m (g s) in (r, h s')).
-Proof.
-  intros G1 G2 H1 H2 Hm s r s' E. destruct (m (g s)) as [r1 s1] eqn:E1. injection E as <- <-.
-  destruct (Hm _ _ _ E1) as [(l & T & C) K]. rewrite G1 in T. split.
-  - exists l. rewrite H1. split; assumption.
-  - intros a Ha. destruct (K a Ha) as [(l2 & T2 & F) P]. rewrite G1 in T2. rewrite G2 in P.
-    split; [exists l2; rewrite H1; split; assumption | rewrite H2; exact P].
 Qed.
 
 Lemma low_end_packet : Low end_packet.
@@ -583,17 +572,300 @@ Qed.
 Lemma t_run_q errtab quiet q p : noignore_q p -> T Inv (run_q errtab quiet q p) Qi.
 Proof. intro H. apply (proj1 (t_run_mut errtab quiet)), H. Qed.
 
+(* ---- computations that log no fault (callback bookkeeping) ---- *)
+
+Definition NFl {A} (m : M A) : Prop := forall s r s', m s = (r, s') -> nf s -> nf s'.
+
+Lemma nfl_bind {A B} (m : M A) (f : A -> M B) : NFl m -> (forall a, NFl (f a)) -> NFl (bind m f).
+Proof.
+  intros Hm Hf s r s'. unfold bind. destruct (m s) as [[a|e|p] s1] eqn:E; intros H1 Hs.
+  - exact (Hf a _ _ _ H1 (Hm _ _ _ E Hs)).
+  - injection H1 as <- <-. exact (Hm _ _ _ E Hs).
+  - injection H1 as <- <-. exact (Hm _ _ _ E Hs).
+Qed.
+Lemma nfl_same {A} (m : M A) : (forall s, snd (m s) = s) -> NFl m.
+Proof.
+  intros H s r s' E. pose proof (H s) as Hs. rewrite E in Hs. cbn [snd] in Hs. subst s'. auto.
+Qed.
+Lemma nfl_log_call c : NFl (log_call c).
+Proof.
+  intros s r s' E Hs. unfold log_call in E. injection E as <- <-.
+  unfold nf. rewrite faulted_upd. intros [H|H]; [discriminate | exact (Hs H)].
+Qed.
+
+(* ---- triples that also maintain "no call after a fault", whatever the result ---- *)
+
+Definition HT {A} (P : st -> Prop) (m : M A) (Q : A -> st -> Prop) : Prop :=
+  forall s r s', m s = (r, s') -> P s -> NCA s -> NCA s' /\ (forall a, r = ROk a -> Q a s').
+
+Lemma h_bind {A B} P (m : M A) Q (f : A -> M B) R :
+  HT P m Q -> (forall a, HT (Q a) (f a) R) -> HT P (bind m f) R.
+Proof.
+  intros Hm Hf s r s'. unfold bind. destruct (m s) as [[a|e|p] s1] eqn:E; intros H1 HP Hn;
+    destruct (Hm _ _ _ E HP Hn) as [N1 K1].
+  - exact (Hf a _ _ _ H1 (K1 a eq_refl) N1).
+  - injection H1 as <- <-. split; [exact N1 | discriminate].
+  - injection H1 as <- <-. split; [exact N1 | discriminate].
+Qed.
+Lemma h_nct {A} P (m : M A) Q : NC m -> T P m Q -> HT P m Q.
+Proof.
+  intros Hc Ht s r s' E HP Hn. split; [exact (grows_call_NCA _ _ (Hc _ _ _ E) Hn)|].
+  intros a ->. exact (Ht _ _ _ E HP).
+Qed.
+Lemma h_nfl {A} (m : M A) : NFl m -> HT nf m (fun _ => nf).
+Proof.
+  intros Hm s r s' E HP _. pose proof (Hm _ _ _ E HP) as H1.
+  split; [exact (nf_NCA _ H1) | intros; exact H1].
+Qed.
+Lemma h_pre {A} (P P' : st -> Prop) (m : M A) Q : (forall s, P' s -> P s) -> HT P m Q -> HT P' m Q.
+Proof. intros HP Hm s r s' E Hs. exact (Hm _ _ _ E (HP _ Hs)). Qed.
+Lemma h_post {A} P (m : M A) (Q Q' : A -> st -> Prop) :
+  (forall a s, Q a s -> Q' a s) -> HT P m Q -> HT P m Q'.
+Proof.
+  intros HQ Hm s r s' E Hs Hn. destruct (Hm _ _ _ E Hs Hn) as [N1 K]. split; [exact N1|].
+  intros a Ha. exact (HQ _ _ (K a Ha)).
+Qed.
+Lemma h_pure {A} (P : st -> Prop) (phi : Prop) (m : M A) Q :
+  (phi -> HT P m Q) -> HT (fun s => P s /\ phi) m Q.
+Proof. intros Hm s r s' E [Hs Hphi]. exact (Hm Hphi _ _ _ E Hs). Qed.
+Lemma h_ret {A} (P : st -> Prop) (a : A) (Q : A -> st -> Prop) :
+  (forall s, P s -> Q a s) -> HT P (ret a) Q.
+Proof. intro Hq. apply h_nct; [apply nc_low, low_ret | apply t_ret, Hq]. Qed.
+Lemma h_fails {A} P (m : M A) Q : NC m -> Fails m -> HT P m Q.
+Proof. intros Hc Hf. apply h_nct; [exact Hc | apply t_fails, Hf]. Qed.
+Lemma h_low_nf {A} (m : M A) : Low m -> HT nf m (fun _ => nf).
+Proof. intro Hl. apply h_nct; [apply nc_low, Hl | apply t_low_nf, Hl]. Qed.
+
+(* ---- flush reports the parked error ---- *)
+
+Lemma nc_flush : NC flush.
+Proof.
+  intros s r s'. unfold flush. destruct (s_park s) as [e|].
+  - intro E. injection E as <- <-. apply grows_same. reflexivity.
+  - apply (nc_low (end_packet ;;; t_flush)). low.
+Qed.
+Lemma t_flush_nf : T Inv flush (fun _ => nf).
+Proof.
+  intros s a s'. unfold flush. destruct (s_park s) as [e|] eqn:Ep; [discriminate|].
+  intros E Hi. assert (Hs : nf s) by (intro F; exact (Hi F Ep)).
+  assert (Hl : Low (end_packet ;;; t_flush)) by low.
+  exact (t_low_nf _ Hl _ _ _ E Hs).
+Qed.
+Lemma h_flush : HT Inv flush (fun _ => nf).
+Proof. apply h_nct; [exact nc_flush | exact t_flush_nf]. Qed.
+
+(* ---- the scripts stay ignore-free ---- *)
+
+Lemma pop_q_noignore sc prog tag sc' :
+  scripts_noignore sc -> pop_q sc = ((prog, tag), sc') -> noignore_q prog /\ scripts_noignore sc'.
+Proof.
+  intros [Hq Hx]. unfold pop_q. destruct (sc_q sc) as [|x r] eqn:E; intro H.
+  - injection H as <- <- <-. split; [exact I|]. split; [rewrite E; exact Hq | exact Hx].
+  - injection H as -> <-. split; [exact (Forall_inv Hq)|].
+    split; [exact (Forall_inv_tail Hq) | exact Hx].
+Qed.
+Lemma pop_x_noignore sc x sc' :
+  scripts_noignore sc -> pop_x sc = (x, sc') -> noignore_q (x_prog x) /\ scripts_noignore sc'.
+Proof.
+  intros [Hq Hx]. unfold pop_x. destruct (sc_x sc) as [|y r] eqn:E; intro H; injection H as <- <-.
+  - split; [exact I|]. split; [exact Hq | rewrite E; exact Hx].
+  - split; [exact (Forall_inv Hx)|]. split; [exact Hq | exact (Forall_inv_tail Hx)].
+Qed.
+Lemma pop_p_noignore sc x sc' : scripts_noignore sc -> pop_p sc = (x, sc') -> scripts_noignore sc'.
+Proof.
+  intros [Hq Hx]. unfold pop_p. destruct (sc_p sc) as [|y r] eqn:E; intro H; injection H as <- <-;
+    split; assumption.
+Qed.
+Lemma pop_i_noignore sc x sc' : scripts_noignore sc -> pop_i sc = (x, sc') -> scripts_noignore sc'.
+Proof.
+  intros [Hq Hx]. unfold pop_i. destruct (sc_i sc) as [|y r] eqn:E; intro H; injection H as <- <-;
+    split; assumption.
+Qed.
+
 Section WithOracles.
 Variable fpext : N -> N.
 Variable fptrunc : N -> N.
 Variable errtab : N -> option (N * bytes).
+
+Lemma low_ret_tag t : Low (ret_tag t).
+Proof. destruct t; [apply low_fail | apply low_ret]. Qed.
+
+Ltac nfl :=
+  repeat (cbv beta iota zeta;
+    match goal with
+    | |- NFl (bind _ _) => apply nfl_bind; [|intro]
+    | |- NFl (ret _) => apply nfl_same; reflexivity
+    | |- NFl (fail _) => apply nfl_same; reflexivity
+    | |- NFl (panic _) => apply nfl_same; reflexivity
+    | |- NFl (log_call _) => apply nfl_log_call
+    | |- NFl (match ?x with _ => _ end) => destruct x
+    end).
+
+Lemma nfl_pull_params fuel : forall n convs p, NFl (pull_params fpext fptrunc fuel n convs p).
+Proof.
+  induction fuel as [|f IH]; intros n convs p; cbn [pull_params]; nfl; apply IH.
+Qed.
+
+(* what a callback leaves behind when it returns Ok *)
+Definition HQ {A} (x : A * scripts) (s : st) : Prop := Inv s /\ scripts_noignore (snd x).
+
+(* the reply phase of a callback: no call is logged, a fault makes it fail or is parked *)
+Ltac reply :=
+  apply (h_pre Inv); [exact nf_Inv|];
+  apply h_nct;
+  [ repeat (cbv beta iota zeta;
+      match goal with
+      | |- NC (bind _ _) => apply nc_bind; [|intro]
+      | |- NC (run_q _ _ _ _) => apply nc_run_q
+      | |- NC (api_ret _) => apply nc_api_ret; low
+      | |- NC (ret_tag _) => apply nc_low, low_ret_tag
+      | |- NC (ret _) => apply nc_low, low_ret
+      | |- NC (fail _) => apply nc_low, low_fail
+      | |- NC (send _) => apply nc_low, low_send
+      | |- NC (send_all _) => apply nc_low, low_send_all
+      | |- NC (match ?x with _ => _ end) => destruct x
+      end)
+  | repeat (cbv beta iota zeta;
+      match goal with
+      | |- T Inv (bind (run_q _ _ _ _) _) _ => apply t_bind_i; [apply t_run_q; assumption | intro]
+      | |- T Inv (bind (api_ret _) _) _ => apply t_bind_i; [apply t_api_ret; low | intro]
+      | |- T Inv (bind (ret_tag _) _) _ => apply t_bind_i; [apply t_low_inv, low_ret_tag | intro]
+      | |- T Inv (bind (send _) _) _ => apply t_bind_i; [apply t_low_inv, low_send | intro]
+      | |- T Inv (bind (send_all _) _) _ => apply t_bind_i; [apply t_low_inv, low_send_all | intro]
+      | |- T Inv (bind (ret _) _) _ => apply t_bind_i; [apply t_low_inv, low_ret | intro]
+      | |- T Inv (ret _) HQ => apply t_ret; intros ? ?; split; [assumption | cbn [snd]; assumption]
+      | |- T Inv (fail _) _ => apply t_fails, fails_fail
+      | |- T Inv (match ?x with _ => _ end) _ => destruct x
+      end) ].
+
+Lemma h_on_query q st sc :
+  scripts_noignore sc -> HT nf (on_query errtab q (st, sc)) HQ.
+Proof.
+  intro Hsc. unfold on_query. destruct (pop_q sc) as [[prog tag] sc'] eqn:Ep.
+  destruct (pop_q_noignore _ _ _ _ Hsc Ep) as [Hp Hsc'].
+  apply (h_bind _ _ _ _ _ (h_nfl _ (nfl_log_call _))). intros _. reply.
+Qed.
+
+Lemma h_on_init schema st sc :
+  scripts_noignore sc -> HT nf (on_init errtab schema (st, sc)) HQ.
+Proof.
+  intro Hsc. unfold on_init. destruct (pop_i sc) as [[prog tag] sc'] eqn:Ep.
+  pose proof (pop_i_noignore _ _ _ Hsc Ep) as Hsc'.
+  apply (h_bind _ _ _ _ _ (h_nfl _ (nfl_log_call _))). intros _.
+  destruct prog; reply.
+Qed.
+
+Lemma h_on_prepare q st sc :
+  scripts_noignore sc -> HT nf (on_prepare errtab q (st, sc)) HQ.
+Proof.
+  intro Hsc. unfold on_prepare. destruct (pop_p sc) as [[prog tag] sc'] eqn:Ep.
+  pose proof (pop_p_noignore _ _ _ Hsc Ep) as Hsc'.
+  apply (h_bind _ _ _ _ _ (h_nfl _ (nfl_log_call _))). intros _.
+  destruct prog; reply.
+Qed.
+
+Lemma h_on_execute id sd params sc :
+  scripts_noignore sc -> HT nf (on_execute fpext fptrunc errtab id sd params sc) HQ.
+Proof.
+  intro Hsc. unfold on_execute. destruct (pop_x sc) as [x sc'] eqn:Ep.
+  destruct (pop_x_noignore _ _ _ Hsc Ep) as [Hp Hsc'].
+  apply (h_bind _ _ _ _ _ (h_nfl _ (nfl_log_call _))). intros _. cbv zeta.
+  apply (h_bind _ _ _ _ _ (h_nfl _ (nfl_pull_params _ _ _ _))). intros p. reply.
+Qed.
+
+Lemma h_handle cmd st sc :
+  scripts_noignore sc -> HT nf (handle fpext fptrunc errtab cmd (st, sc)) HQ.
+Proof.
+  intro Hsc. destruct cmd as [q|a|schema|q|id params|id param data|id| |]; unfold handle.
+  - destruct (is_prefix sel_upper q || is_prefix sel_lower q).
+    + assert (Hp : noignore_q (QStart [{| c_table := []; c_name := at_max_allowed_packet;
+                                          c_type := 3; c_flags := 32 |}]
+                                 (RWriteRow [VInt U32 67108864] Propagate RFinish)))
+        by (cbn [noignore_q noignore_r]; auto).
+      assert (Hp2 : noignore_q (QCompleted 0 0)) by exact I.
+      destruct (bytes_eqb (skipn 9 q) max_allowed_packet); reply.
+    + destruct (is_prefix use_upper q || is_prefix use_lower q).
+      * destruct (utf8_valid (skipn 4 q)); [apply h_on_init, Hsc|].
+        apply h_fails; [apply nc_low, low_fail | apply fails_fail].
+      * destruct (utf8_valid q); [apply h_on_query, Hsc|].
+        apply h_fails; [apply nc_low, low_fail | apply fails_fail].
+  - reply.
+  - destruct (utf8_valid schema); [apply h_on_init, Hsc|].
+    apply h_fails; [apply nc_low, low_fail | apply fails_fail].
+  - destruct (utf8_valid q); [apply h_on_prepare, Hsc|].
+    apply h_fails; [apply nc_low, low_fail | apply fails_fail].
+  - destruct (lookup id st) as [sd|];
+      [|apply h_fails; [apply nc_low, low_fail | apply fails_fail]].
+    apply (h_bind _ _ _ _ _ (h_on_execute id sd params sc Hsc)). intros [sd' sc'].
+    apply h_pure. cbn [snd]. intro Hsc'. apply h_ret. intros s Hs. split; assumption.
+  - destruct (lookup id st) as [sd|];
+      [|apply h_fails; [apply nc_low, low_fail | apply fails_fail]].
+    apply h_ret. intros s Hs. split; [exact (nf_Inv _ Hs) | exact Hsc].
+  - apply (h_bind _ _ _ _ _ (h_nfl _ (nfl_log_call _))). intros _.
+    apply h_ret. intros s Hs. split; [exact (nf_Inv _ Hs) | exact Hsc].
+  - apply h_ret. intros s Hs. split; [exact (nf_Inv _ Hs) | exact Hsc].
+  - reply.
+Qed.
+
+(* ---- the loop: at every loop head nothing has faulted ---- *)
+
+Lemma h_run_f fuel : forall ss0, scripts_noignore (snd ss0) ->
+  HT nf (run_f fpext fptrunc errtab fuel ss0) (fun _ => nf).
+Proof.
+  induction fuel as [|f IH]; intros [st sc] Hsc; cbn [snd] in Hsc; cbn [run_f].
+  - apply h_fails; [apply nc_low, low_panic | apply fails_panic].
+  - apply (h_bind _ _ _ _ _ (h_low_nf _ low_next)). intros [[q pkt]|]; [|apply h_ret; auto].
+    apply (h_bind _ _ _ _ _ (h_low_nf _ (low_set_seq _))). intros _.
+    assert (Hgen : forall cmd,
+      HT nf (s' <- handle fpext fptrunc errtab cmd (st, sc) ;; flush ;;; run_f fpext fptrunc errtab f s')
+         (fun _ => nf)).
+    { intro cmd. apply (h_bind _ _ _ _ _ (h_handle cmd st sc Hsc)). intros ss'.
+      apply h_pure. intro Hsc'.
+      apply (h_bind _ _ _ _ _ h_flush). intros _. apply IH, Hsc'. }
+    destruct (parse pkt) as [cmd|];
+      [|apply h_fails; [apply nc_low, low_fail | apply fails_fail]].
+    destruct cmd; try apply Hgen. apply h_ret. auto.
+Qed.
+
+Lemma h_init cfg : HT nf (init errtab cfg) (fun _ => nf).
+Proof.
+  unfold init.
+  apply (h_bind _ _ _ _ _ (h_low_nf _ (low_write_all _))). intros _.
+  apply (h_bind _ _ _ _ _ (h_pre _ _ _ _ nf_Inv h_flush)). intros _.
+  apply (h_bind _ _ _ _ _ (h_low_nf _ low_next)).
+  intros [[q pkt]|]; [|apply h_fails; [apply nc_low, low_fail | apply fails_fail]].
+  destruct (client_handshake pkt false) as [ssl user|e];
+    [|apply h_fails; [apply nc_low, low_fail | apply fails_fail]].
+  apply (h_bind _ _ _ _ _ (h_low_nf _ (low_set_seq _))). intros _.
+  destruct ssl; [apply h_fails; [apply nc_low, low_fail | apply fails_fail]|].
+  apply (h_bind _ _ _ _ _ (h_nfl _ (nfl_log_call _))). intros _.
+  destruct (cfg_auth cfg) as [tag|].
+  - apply h_fails; [|fails].
+    apply nc_bind; [destruct (errtab 1045) as [[c state]|]; apply nc_low; low|].
+    intro. apply nc_bind; [exact nc_flush | intro; apply nc_low, low_fail].
+  - apply (h_bind _ _ _ _ _ (h_low_nf _ (low_send _))). intros _.
+    exact (h_pre _ _ _ _ nf_Inv h_flush).
+Qed.
+
+Lemma h_run_on cfg sc : scripts_noignore sc ->
+  HT nf (run_on fpext fptrunc errtab cfg sc) (fun _ => nf).
+Proof.
+  intros Hsc s r s' E. unfold run_on in E. revert E.
+  apply (h_bind _ _ _ _ _ (h_init cfg)). intros _. apply h_run_f. exact Hsc.
+Qed.
+
+Lemma start_nf s : s_trace s = [] -> nf s /\ NCA s.
+Proof. intro H. unfold nf, faulted, NCA. rewrite H. split; [discriminate | exact I]. Qed.
 
 (* a fault anywhere makes the whole run fail (never Ok) *)
 Theorem fault_is_error cfg sc s r s' :
   s_trace s = [] -> s_park s = None -> scripts_noignore sc ->
   run_on fpext fptrunc errtab cfg sc s = (r, s') ->
   faulted s' -> r <> ROk tt.
-Admitted.
+Proof.
+  intros Ht _ Hsc E F ->. destruct (start_nf s Ht) as [Hs Hn].
+  destruct (h_run_on cfg sc Hsc _ _ _ E Hs Hn) as [_ K]. exact (K tt eq_refl F).
+Qed.
 
 (* no shim callback is started after the first fault *)
 Theorem no_call_after_fault cfg sc s r s' pre f post :
@@ -601,7 +873,13 @@ Theorem no_call_after_fault cfg sc s r s' pre f post :
   run_on fpext fptrunc errtab cfg sc s = (r, s') ->
   rev (s_trace s') = pre ++ f :: post -> is_fault f = true ->
   existsb is_call post = false.
-Admitted.
+Proof.
+  intros Ht _ Hsc E Hsplit Hf. destruct (start_nf s Ht) as [Hs Hn].
+  destruct (h_run_on cfg sc Hsc _ _ _ E Hs Hn) as [N' _]. unfold NCA in N'.
+  rewrite <- (rev_involutive (s_trace s')), Hsplit, rev_app_distr in N'.
+  cbn [rev] in N'. rewrite <- app_assoc in N'. cbn [app] in N'.
+  rewrite <- (existsb_rev is_call post). exact (nca_split _ _ _ N' Hf).
+Qed.
 
 (* a shim error ends the connection and is returned unchanged *)
 Theorem shim_error_returned q st sc prog tag sc' msgs s :
@@ -659,3 +937,9 @@ Proof.
 Qed.
 
 End WithOracles.
+
+Print Assumptions fault_is_error.
+Print Assumptions no_call_after_fault.
+Print Assumptions shim_error_returned.
+Print Assumptions run_f_handle_error.
+Print Assumptions run_truncated.
